@@ -84,7 +84,14 @@ def run(ctx):
                 # every base method that uses the slot must be overridden
                 users = [mn for mn, m in base_tb.methods.items()
                          if any(attr_chain(x) == ["self", slot] for x in ast.walk(m.node) if isinstance(x, ast.Attribute))]
-                supplied = bool(users) and all(u in cls.methods for u in users)
+                def really_overrides(u):
+                    m = cls.methods.get(u)
+                    if m is None:
+                        return False
+                    # an override that delegates to the base implementation still needs the slot
+                    return not any(isinstance(c, ast.Call) and isinstance(c.func, ast.Attribute) and c.func.attr == u
+                                   and norm(c.func.value) != "self" for c in walk_no_nested(m.node))
+                supplied = bool(users) and all(really_overrides(u) for u in users)
             r.check("C04.1", supplied, "%s::TreeBuilder.%s" % (label, slot), cls.where,
                     "%s TreeBuilder neither supplies %s nor overrides the methods that use it" % (label, slot),
                     detail={"backend": label, "slot": slot})
